@@ -32,25 +32,38 @@ var Modes = []string{"shared", "spare", "plain"}
 
 var sentinelPt = orb.Point{-7.77e77, 7.77e77}
 
-// Guard watches the memory of a laid-out value.
+// Guard watches the memory of a laid-out value. It distinguishes
+//
+//	values  every element within len of every slice of the value (coordinates of every point
+//	        slice, entries of every outer slice): what the caller passed. A function that is not
+//	        documented to modify its input must leave them bit-identical — Check reports a change.
+//	spare   the sentinel cells beyond len (capacity tails). A write there changes no value the
+//	        caller can reach without re-slicing beyond len; it is a fact about memory layout, not a
+//	        violation: SpareNote reports it so that callers can COUNT it (soundness rule of round L).
 type Guard struct {
 	views  [][]orb.Point
 	copies [][]orb.Point
+	nval   []int // slots [0, nval) of a view are values, the rest spare
 	outers []func() []entry
 	outer0 [][]entry
+	oval   []int
+	note   string
 }
 
-func (gd *Guard) watch(full []orb.Point) {
+func (gd *Guard) watch(full []orb.Point, values int) {
 	gd.views = append(gd.views, full)
 	gd.copies = append(gd.copies, append([]orb.Point(nil), full...))
+	gd.nval = append(gd.nval, values)
 }
 
-func (gd *Guard) watchOuter(f func() []entry) {
+func (gd *Guard) watchOuter(values int, f func() []entry) {
 	gd.outers = append(gd.outers, f)
 	gd.outer0 = append(gd.outer0, f())
+	gd.oval = append(gd.oval, values)
 }
 
-// Check reports the first difference between the watched memory and its state at lay-out time.
+// Check reports the first change of a VALUE (an element within len) since lay-out time. Changes of
+// spare cells are remembered for SpareNote.
 func (gd *Guard) Check() error {
 	if gd == nil {
 		return nil
@@ -59,16 +72,38 @@ func (gd *Guard) Check() error {
 		c := gd.copies[i]
 		for j := range v {
 			if math.Float64bits(v[j][0]) != math.Float64bits(c[j][0]) || math.Float64bits(v[j][1]) != math.Float64bits(c[j][1]) {
-				return fmt.Errorf("the argument was written to: coordinate array %d, slot %d of %d: %v became %v", i, j, len(v), c[j], v[j])
+				if j < gd.nval[i] {
+					return fmt.Errorf("the argument's value was changed: coordinate array %d, element %d (of %d elements within len): %v became %v", i, j, gd.nval[i], c[j], v[j])
+				}
+				if gd.note == "" {
+					gd.note = fmt.Sprintf("spare capacity written: coordinate array %d, slot %d beyond len %d", i, j, gd.nval[i])
+				}
 			}
 		}
 	}
 	for i, f := range gd.outers {
-		if s := f(); !sameEntries(s, gd.outer0[i]) {
-			return fmt.Errorf("the argument was written to: entries of outer slice %d changed: %+v became %+v", i, gd.outer0[i], s)
+		s := f()
+		for j := range s {
+			if j < len(gd.outer0[i]) && s[j] == gd.outer0[i][j] {
+				continue
+			}
+			if j < gd.oval[i] {
+				return fmt.Errorf("the argument's value was changed: entry %d (of %d within len) of outer slice %d: %+v became %+v", j, gd.oval[i], i, gd.outer0[i][j], s[j])
+			}
+			if gd.note == "" {
+				gd.note = fmt.Sprintf("spare capacity written: outer slice %d, slot %d beyond len %d", i, j, gd.oval[i])
+			}
 		}
 	}
 	return nil
+}
+
+// SpareNote returns a description of the first write into spare capacity seen by Check so far ("" if none).
+func (gd *Guard) SpareNote() string {
+	if gd == nil {
+		return ""
+	}
+	return gd.note
 }
 
 // entry identifies one entry of an outer slice: slices by identity (kind, data pointer, len, cap),
@@ -180,12 +215,12 @@ func (l *layouter) pts(ps []orb.Point) []orb.Point {
 		full := make([]orb.Point, len(ps)+2)
 		copy(full, ps)
 		full[len(ps)], full[len(ps)+1] = sentinelPt, sentinelPt
-		l.gd.watch(full)
+		l.gd.watch(full, len(ps))
 		return full[:len(ps)]
 	}
 	full := make([]orb.Point, len(ps))
 	copy(full, ps)
-	l.gd.watch(full)
+	l.gd.watch(full, len(full))
 	return full
 }
 
@@ -208,7 +243,7 @@ func (l *layouter) polygon(p orb.Polygon) orb.Polygon {
 	for i := len(p); i < len(full); i++ {
 		full[i] = orb.Ring{sentinelPt}
 	}
-	l.gd.watchOuter(func() []entry { return describeAll(len(full), func(i int) interface{} { return full[i] }) })
+	l.gd.watchOuter(len(p), func() []entry { return describeAll(len(full), func(i int) interface{} { return full[i] }) })
 	return full[:len(p)]
 }
 
@@ -231,7 +266,7 @@ func (l *layouter) geom(g orb.Geometry) orb.Geometry {
 		for i := len(v); i < len(full); i++ {
 			full[i] = orb.LineString{sentinelPt}
 		}
-		l.gd.watchOuter(func() []entry { return describeAll(len(full), func(i int) interface{} { return full[i] }) })
+		l.gd.watchOuter(len(v), func() []entry { return describeAll(len(full), func(i int) interface{} { return full[i] }) })
 		return full[:len(v)]
 	case orb.Polygon:
 		return l.polygon(v)
@@ -246,7 +281,7 @@ func (l *layouter) geom(g orb.Geometry) orb.Geometry {
 		for i := len(v); i < len(full); i++ {
 			full[i] = orb.Polygon{orb.Ring{sentinelPt}}
 		}
-		l.gd.watchOuter(func() []entry { return describeAll(len(full), func(i int) interface{} { return full[i] }) })
+		l.gd.watchOuter(len(v), func() []entry { return describeAll(len(full), func(i int) interface{} { return full[i] }) })
 		return full[:len(v)]
 	case orb.Collection:
 		if v == nil {
@@ -259,7 +294,7 @@ func (l *layouter) geom(g orb.Geometry) orb.Geometry {
 		for i := len(v); i < len(full); i++ {
 			full[i] = sentinelPt
 		}
-		l.gd.watchOuter(func() []entry { return describeAll(len(full), func(i int) interface{} { return full[i] }) })
+		l.gd.watchOuter(len(v), func() []entry { return describeAll(len(full), func(i int) interface{} { return full[i] }) })
 		return full[:len(v)]
 	}
 	return g // Point, Bound, nil: values
@@ -280,7 +315,7 @@ func LayOut(g orb.Geometry, mode string) (orb.Geometry, *Guard) {
 	}
 	out := l.geom(g)
 	if mode == "shared" {
-		l.gd.watch(l.buf) // after the windows were filled
+		l.gd.watch(l.buf, l.off) // after the windows were filled: [0, off) are the rings' elements, then sentinels
 	}
 	return out, l.gd
 }
